@@ -43,7 +43,7 @@ NO_DISC = ("StepDisc",)          # configurations whose dataset has no Reconnect
 NO_SD = ("StepShutdown",)        # single-run configuration that always stops on its fatal error
 
 
-def product_check(ctx, whole, parts, coverage=True):
+def product_check(ctx, whole, parts, coverage=False):
     """Model-check a K=2 configuration and its two single-run configurations; the K-run state
     space must be exactly the product of the single-run spaces (Isolation at the spec level).
     whole / parts: (cfg, actions that cannot occur in it)."""
@@ -196,6 +196,8 @@ def judge(ctx, scns, trace_path, results_path, expected, label):
             continue
         if rs[0]["extra_streams"]:
             raise vlib.ToolError("scenario %s: stream() was called more often than there are runs" % scn)
+        if any(r["account_reconnects"] for r in rs):
+            raise vlib.ToolError("scenario %s: the mock account stream reconnected (broadcast lag) - timing, not a verdict" % scn)
         # Isolation of the data streams: one stream per run, no stream seen by two runs
         tags = [tuple(r["tags"]) for r in rs]
         if s["mode"] == "gated":
@@ -288,7 +290,8 @@ def diff(a, b, path=""):
 def binding_bites(ctx, trace_path):
     """Corrupt recorded run logs one field at a time: Trace_Backtest must reject each copy."""
     lines = ctx.read_trace(trace_path)
-    segs = [s for s in first_lines_by_run(lines) if s[2][-1]["a"] == "End" and 8 <= len(s[2]) <= 400
+    segs = [s for s in first_lines_by_run(lines) if s[2][-1]["a"] == "End" and len(s[2]) <= 400
+            and sum(1 for l in s[2] if l["a"] == "Market") >= 8
             and any(l["a"] == "Account" and l["kind"] == "trade" for l in s[2])]
     if not segs:
         raise vlib.ToolError("self-test: no recorded run with a fill to corrupt")
@@ -347,8 +350,7 @@ def check(ctx):
                               "outcomes.ndjson", timeout=1200, workers=1 if ctx.quick else 4)
     scns_t, expected = tlc_scenarios(ctx, outcomes)
     ctx.sample({"kind": "TLC-enumerated outcome (one of those allowed for its parameters)", "outcome": outcomes[len(outcomes) // 2]})
-    tp = run_all(ctx, scns_t, expected, "enumerated")
-    binding_bites(ctx, tp)
+    run_all(ctx, scns_t, expected, "enumerated")
     # impl -> spec: seeded datasets of 50-2000 events, K up to 8 (32 thorough), 1-4 (16) workers
     rc, out, _ = vlib.run([vlib.os.path.join(vlib.HARNESS, "target", "debug", "c20"), "plan", "--seed", str(ctx.seed), "--tier", ctx.tier],
                           timeout=120)
@@ -357,7 +359,8 @@ def check(ctx):
     scns_r = json.loads(out.strip().splitlines()[-1])
     ctx.sample({"kind": "seeded scenario (gated, concurrent)", "scenario": next(
         dict(s, runs=s["runs"][:2]) for s in scns_r if s["mode"] == "gated" and len(s["runs"]) > 1)})
-    run_all(ctx, scns_r, {}, "seeded")
+    tp = run_all(ctx, scns_r, {}, "seeded")
+    binding_bites(ctx, tp)
     st = ctx.cov["implementation_runs"]
     if st["fills"] == 0 or st["runs_with_closed_positions"] == 0 or st["gated_runs_compared_with_alone"] == 0 or st["tlc_outcomes_matched"] == 0:
         raise vlib.ToolError("vacuous run: %s" % st)
